@@ -788,7 +788,9 @@ static void walk_obj(Node* n, var obj, size_t lineno) {
     if (gbad) deviation(n, A_GET, lineno, what);
     /* get at and beyond the ends: -1 (the last), -len (the first), -len-1 and len (must raise) */
     int64_t probe[4] = { -1, -(int64_t)glen, -(int64_t)glen - 1, (int64_t)glen };
-    int checked = 1;      /* every type with a positional Get: negative = from the end, outside [-len, len) must raise */
+    /* every type with a positional Get: negative = from the end, outside [-len, len) must raise.  Not judged: a Zip of NO inputs
+       (Zip_Get answers the empty tuple for every index; the theorems about Zip have the hypothesis "at least one input") */
+    int checked = !(n->kind == K_ZIP && n->nk == 0);
     LP(" gx=["); gbad = 0;
     for (int q = 0; q < 4; q++) {
       char b[512];
